@@ -13,6 +13,7 @@ import (
 	"io"
 	"math/rand"
 	"net"
+	"os"
 
 	"verif/harness/hcx"
 	"verif/harness/script"
@@ -294,6 +295,10 @@ func runScript(rnd *rand.Rand, c scriptCase, cutAt int) {
 }
 
 func main() {
+	if len(os.Args) > 1 && os.Args[1] == "-handover-race-child" {
+		raceChild()
+		return
+	}
 	run = vf.Start("C07", "exploration")
 	r := run
 	r.SetRule("harness A: a case = (message lengths, frame policy, segmentation incl. every single cut offset of base streams, idle periods, caller buffer sizes); " +
@@ -367,5 +372,6 @@ func main() {
 	r.Floor("idle_periods_injected", int(r.Counter("idle_periods_injected")), 1000)
 
 	handover(r)
+	handoverRace(r)
 	r.Finish()
 }
